@@ -696,6 +696,14 @@ static TExp expectTecmp(const Bytes& f)
             e.arbId = (uint32_t) ref::rd(p, 4);
             e.data.assign(p + 5, p + 5 + p[4]);
         }
+        else if (mt == ref::TM_CM_STATUS && plen >= 36 && !(dt == 0xFF00))
+        {
+            // a complete capture-module status message followed by further bytes: the fields of the status header are at fixed offsets
+            e.judged = true; e.multi = true; e.none = false; e.kind = 'M';
+            e.serial = (uint32_t) ref::rd(p + 8, 4);
+            e.sw[0] = p[13]; e.sw[1] = p[14]; e.sw[2] = p[15];
+            e.hw[0] = p[16]; e.hw[1] = p[17];
+        }
         else if (mt == ref::TM_DATA && dt == ref::TD_LIN && plen >= 2 && (size_t) 2 + p[1] <= plen)
         {
             e.judged = true; e.multi = true; e.none = false; e.kind = 'L';
@@ -1095,6 +1103,14 @@ static void tecmpEnumerate(const TTask& t, bool thorough, Fn fn)
                             Bytes q = p;
                             q[pos] = (uint8_t) val;
                             fn(ref::tecmpFrame(h, q));
+                        }
+                if (k < 3)
+                    for (size_t trail : {(size_t) 1, (size_t) 16, (size_t) 40})
+                        for (uint8_t tb : {(uint8_t) 0x00, (uint8_t) 0x01, (uint8_t) 0xFF})
+                        {
+                            Bytes g = ref::tecmpFrame(h, p);   // declared length = the status message
+                            g.insert(g.end(), trail, tb);
+                            fn(g);
                         }
                 if (k == 0)
                     declVariants(ref::tecmpFrame(h, p));
